@@ -85,6 +85,29 @@ def lint_borrow_mut(text):
     return bad
 
 
+def lint_cell_hash_eq():
+    """Cell-model lint (DESIGN 2.3): Hash and PartialEq of StackObjectRef must be pointer based.  The
+    argument that no RefCell borrow-flag panic can happen while a RefMut is live (SETITEM/ADDITEMS insert
+    keys into a container they hold mutably borrowed) rests on these impls never calling borrow()."""
+    import rsx
+    bad = []
+    path = os.path.join(os.environ.get('VERIF_REPO', '/repo'), 'src', 'stack.rs')
+    try:
+        src = rsx.Source(path)
+    except OSError as e:
+        return ['src/stack.rs unreadable: %s' % e]
+    for tr in ('Hash', 'PartialEq'):
+        spans = list(src.impl_blocks(r'impl %s for StackObjectRef' % tr))
+        if len(spans) != 1:
+            bad.append('impl %s for StackObjectRef found %d times' % (tr, len(spans)))
+            continue
+        a, b = spans[0]
+        body = src.m[a:b]
+        if re.search(r'\.\s*borrow(_mut)?\s*\(', body):
+            bad.append('impl %s for StackObjectRef borrows the cell (must be pointer based: Rc::as_ptr / Rc::ptr_eq)' % tr)
+    return bad
+
+
 def parse_errors(stderr):
     """Split rustc-style diagnostics into records (msg, first span line, all span lines)."""
     recs = []
